@@ -24,7 +24,7 @@ CHECKS = {
  "C07": ("exploration", "runtime monitor: generated type-dependency graphs with ground-truth reachability; declared type set parsed from types.ts and compared",
          "held on everything observed: every edge context (18) x root kind (7) systematically plus 300 (quick) / 30 000 (thorough) random graphs of 2-10 types over 1-5 files with cycles, unreachable, non-serde and error-arm-only decoys, both modes", "4 C07"),
  "C08": ("exploration", "runtime monitor (differential over histories): edit / non-forced-run sequences against the real CLI and the real build-script entry point; after every successful run the output directory is compared with the tool's own forced generation of the current state",
-         "held on everything observed: 37 edit classes; all length-1 histories on both paths and modes, all ordered length-2 histories on the CLI path, sampled length-2 on the build path and with skipped intermediate runs, sampled length 3 (thorough: length-2 exhaustive on both paths, 12 000 length-3, 1 500 of length 4-7); evidence counts cache hits actually observed", "4 C08"),
+         "held on everything observed: 37 edit classes; all length-1 histories on both paths and modes, all ordered length-2 histories on the CLI path, sampled length-2 on the build path and with skipped intermediate runs, sampled length 3 (thorough: length-2 exhaustive on both paths, 40 000 length-3, 1 500 of length 4-7); evidence counts cache hits actually observed", "4 C08"),
  "C09": ("exploration", "runtime monitor: Zod-mode runs of the real CLI over enumerated DAGs under replayable hash seeds; declaration-before-use scan over the parsed types.ts",
          "held on everything observed: all labelled DAGs on <=3 (quick) / <=4 (thorough) nodes x 6 uniform edge contexts x 8/32 hash seeds (incl. OS-entropy processes) plus sampled DAGs to 6 nodes with mixed contexts; evidence reports distinct schema orders observed", "4 C09"),
  "C10": ("exploration", "runtime monitor: each project generated in both modes by the real CLI; plain declarations and Zod schemas parsed into one shape model and diffed key by key; serde_json values replayed through a mini-Zod interpreter of the emitted parameter schemas",
@@ -34,11 +34,11 @@ CHECKS = {
  "C12": ("exploration", "runtime monitor: generated emit placements / receivers / payload forms with ground truth; listeners parsed from events.ts (listen literal, identifier, payload type) and compared",
          "held on everything observed: every placement (18), documented receiver form (8) and payload form (33) systematically in both modes plus 300 (quick) / 30 000 (thorough) random projects with 1-5 events emitted from 1-3 functions/files over the Tauri event-name alphabet; no-events case", "4 C12"),
  "C13": ("exploration", "runtime monitor (differential): the real CLI on one project under replayable hash seeds (getrandom shim), OS-entropy processes, permuted directory order, --verbose/--visualize-deps and semantics-preserving source transformations; byte / declaration-multiset comparison",
-         "held on everything observed: 60 (quick) / 600 (thorough) multi-file projects x 12/48 schedules x 4/8 transformations; evidence reports how many distinct outputs and declaration orders were actually seen (1 per project when the property holds)", "4 C13"),
+         "held on everything observed: 60 (quick) / 2 000 (thorough) multi-file projects x 12/48 schedules x 4/8 transformations; evidence reports how many distinct outputs and declaration orders were actually seen (1 per project when the property holds)", "4 C13"),
  "C14": ("exploration", "runtime monitor (filesystem): snapshot of bytes/mtime_ns/inode around the second run plus strace log of mutating syscalls; forced runs from five cache states observed by content and mtime",
-         "held on everything observed: 80 (quick) / 800 (thorough) projects of 1-6 files with 0-3 type mappings x CLI and build-script path x 3/12 unchanged re-runs under other hash seeds, and --force / force:true from absent, matching, mismatching, corrupt and wrong-version caches", "4 C14"),
+         "held on everything observed: 80 (quick) / 3 000 (thorough) projects of 1-6 files with 0-3 type mappings x CLI and build-script path x 3/12 unchanged re-runs under other hash seeds, and --force / force:true from absent, matching, mismatching, corrupt and wrong-version caches", "4 C14"),
  "C15": ("exploration", "runtime monitor (exit/abort + differential): real CLI and library entry point (catch_unwind) on generated exotic Rust, fuzzed attribute payloads, a real-world corpus and its mutations, and non-Rust text; failing batches bisected to one input; project vs project+unparsable-file comparison",
-         "held on everything observed: 3 300 generated + 1 500 corpus + 1 450 mutated corpus inputs + 66 non-Rust + 150 isolation projects in quick; thorough: 20 000 generated, every .rs file of the repository, the offline registry and the toolchains (~13 000), 40 000 mutants, 1 500 isolation projects", "4 C15"),
+         "held on everything observed: 3 300 generated + 1 500 corpus + 1 450 mutated corpus inputs + 66 non-Rust + 150 isolation projects in quick; thorough: 100 000 generated, every .rs file of the repository, the offline registry and the toolchains (~13 000), 200 000 mutants, 6 000 isolation projects, a release-build pass and a Miri screen of the analysis layer", "4 C15"),
  "C16": ("exploration", "runtime monitor (filesystem): recursive snapshot of a whole sandbox before/after every run + strace classification of every mutating syscall by target path",
          "held on everything observed: 300 (quick) / 15 000 (thorough) sandboxes x 2-3 runs; output directory in 5 placements pre-populated with foreign and near-miss files, symlinks, stale reserved files; CLI absolute/relative/config, init and build-script paths; runs that find no commands; mode switches", "4 C16"),
  "C17": ("fault_enumeration", "runtime monitor with fault injection: strace -P <file> -e inject (openat EACCES, write ENOSPC, SIGKILL at open) and filesystem obstacles (EISDIR, ENOTDIR) on the real processes; recovery compared with the tool's own fresh generation",
